@@ -44,4 +44,9 @@ def sortedInt : List Int → Bool
   | [_] => true
   | a :: b :: t => decide (a ≤ b) && sortedInt (b :: t)
 
+/-- C09: a stored quotient code `c` for exact scaled quotient `Q`: exact when representable, otherwise one
+of the two neighbours; in range of the result format. -/
+def c09quot (t : Fmt) (Q : Rat) (c : Int) : Bool :=
+  decide (t.lo ≤ c ∧ c ≤ t.hi) && decide ((c:Rat) - 1 < Q ∧ Q < (c:Rat) + 1)
+
 end Fxp.Chk
